@@ -50,7 +50,8 @@ CHECKS["C01"] = {
     "level_text": "Executes the real prover and verifier over the whole configuration lattice (all seven bit lengths, aggregation 1..32, "
                   "capacity >= aggregation, extension degree 1..6) with boundary values, every promise class, seeded and unseeded, seven prover-RNG "
                   "fault models, all three verify modes; over the free-module group the monitor also sees that the accepted residual is the zero "
-                  "vector; an independent reference verifier must accept the same bytes. Held-on-K-executions, not a proof.",
+                  "vector; an independent reference verifier must accept the same bytes. Aggregates regularly contain degenerate members (an identity commitment = value 0 with an all-zero mask, the same "
+                  "commitment at two positions), and statement, witness and proof are also used through clone_from() copies. Held-on-K-executions, not a proof.",
     "level_note": "Assumes the sampled lattice and value classes are representative; trusted base: dalek scalar/point arithmetic, merlin STROBE, harness free-module group.",
 }
 
@@ -203,7 +204,8 @@ CHECKS["C08"] = {
     "level_text": "Reads the factor with which each proof's equation enters the real verifier's batch check (the scalar paired with that proof's B in the captured final multiscalar "
                   "multiplication over the free-module group): every factor is non-zero; the ratio of two proofs' factors changes whenever r1, s1 or any d1 component of either changes; "
                   "and a cancellation attack on every pair and blinding coordinate that recomputes its offsetting defect from the factors observed on the previous run is rejected in every "
-                  "round, with the captured residual equal to w_i*delta_i + w_j*delta_j on exactly that coordinate.",
+                  "round, with the captured residual equal to w_i*delta_i + w_j*delta_j on exactly that coordinate; the attack is repeated on batches in which every proof is submitted twice (identical copies, "
+                  "identical defects, factors of the copies summed), in VerifyOnly and RecoverAndVerify, on public and seeded statements.",
     "level_note": "Held on the executed runs; an attacker model limited to d1 defects. Trusted: FmPoint MSM log.",
 }
 
@@ -238,7 +240,8 @@ CHECKS["C10"] = {
     "assumptions": COMMON_ASSUMPTIONS + ["a wrong seed recovering the true mask by chance has probability 2^-252 per component"],
     "level_text": "For seeded single-commitment proofs over all bit lengths and degrees: recovery with any different seed (including seeds differing in one byte position only, e.g. the top byte) "
                   "returns Ok with a mask that shares no component with the true one; the accept/reject verdict of honest and of every singly-altered proof is identical with no seed, the right "
-                  "seed and a wrong seed, in VerifyOnly and RecoverAndVerify; RecoverOnly returns what RecoverAndVerify returns on accepted inputs.",
+                  "seed and a wrong seed, in VerifyOnly and RecoverAndVerify; RecoverOnly returns what RecoverAndVerify returns on accepted inputs, also member by member in batches whose statements share one seed "
+                  "(own proof, another proof made with that seed, a proof made under another seed, an unseeded statement in between).",
     "level_note": "Held on the executed runs. Trusted: harness mutation generator.",
 }
 
@@ -334,8 +337,8 @@ CHECKS["C15"] = {
     "assumptions": COMMON_ASSUMPTIONS + ["the (tag, length) sweep is exhaustive up to 1314 bytes (40 elements beyond the largest honest proof) for three fill patterns, not for all contents",
                                          "the serde form is exercised through bincode 1.x (the crate's own dev-dependency)"],
     "level_text": "Runs the real decoder on more than two million byte strings: the complete (first byte x length) grid up to 1314 bytes under three fill patterns, every scalar slot at the canonicity "
-                  "boundary of the group order (independent little-endian comparison), random and mutated encodings; acceptance must equal the stated set exactly, every accepted string must re-encode to "
-                  "itself, and the serde/bincode form must accept and produce exactly the same strings. Every kind of proof the prover outputs over the lattice (up to 64x32) must round-trip with the stated length.",
+                  "boundary of the group order (independent little-endian comparison; interior points of [2^252, l); every combination of {0, l's limb, l's limb +- 1, all ones, random} over the four 64-bit limbs; every single-byte alteration of l and l - 1), random and mutated encodings; acceptance must equal the stated set exactly, every accepted string must re-encode to "
+                  "itself, decoded proofs compare equal exactly when their encodings are equal, and the serde/bincode form must accept and produce exactly the same strings. Every kind of proof the prover outputs over the lattice (up to 64x32) must round-trip with the stated length.",
     "level_note": "Known finding (not a false alarm): prover outputs with zero folding rounds are refused by the decoder; listed in known_findings.json.",
 }
 
@@ -382,7 +385,7 @@ CHECKS["C16"] = {
                                          "statements are built through the validating constructors; Pedersen generator fields are not tampered with here"],
     "level_text": "Feeds the real decoder and verifier tens of thousands of hostile inputs inside child processes (checked build with overflow checks and debug assertions, and the plain release build; Ristretto for the real backend "
                   "assertions, free-module group for step counting): no panic (catch_unwind), no abnormal process exit (abort, stack overflow, allocation failure), largest single allocation and peak live bytes within a linear "
-                  "bound of input size and table size, logical steps within a linear bound. Thorough repeats the Ristretto workload under AddressSanitizer.",
+                  "bound of input size and table size, logical steps within a linear bound; hostile statements include unrelated points, identity commitments (one or all) and repeated commitments against honest proofs. Thorough repeats the Ristretto workload under AddressSanitizer.",
     "level_note": "Held on the executed inputs. A clean sanitizer run is not memory safety; the library has no unsafe code of its own, the sanitizer leg covers the dependencies' unsafe reached from hostile input.",
 }
 
@@ -456,7 +459,9 @@ CHECKS["C20"] = {
                                          "realloc is made to move always (a conforming allocator may), so a grown buffer's old block is always inspected; blocks are wiped after scanning and the harness wipes every block it releases itself, so stale bytes cannot resurface in uninitialised slack",
                                          "Ristretto only: over the free-module group a commitment literally stores blinding factors as coordinates"],
     "level_text": "Interposes on the global allocator of the real prover and verifier and inspects every heap block they release while secrets are live: values, blinding factors, the recovery seed and recovered masks must never be found, "
-                  "in an unoptimised build of the library (where temporaries are not elided), in the checked build and in the plain release build; owning types are dropped (also as clones, in Vec and Box) inside armed windows; a statement dropped in place must no longer contain its seed.",
+                  "in an unoptimised build of the library (where temporaries are not elided), in the checked build and in the plain release build; owning types are dropped (also as clones, in Vec and Box) inside armed windows; prover calls that are refused (wrong opening at the first / last position, a promise above the value at the first / middle / last "
+                  "position, too few openings) and verifier calls that fail are windows too; a statement dropped in place must no longer contain its seed. The stack below every window is zeroed first, 64-bit value patterns have "
+                  "every byte >= 0x80 and a value hit must reproduce in two re-runs with other values (DESIGN section 11: stale stack bytes in padding are not a buffer holding a value).",
     "level_note": "Held on the executed windows; scanning cannot see secrets in a transformed representation. The scanner is self-tested in every process with a planted canary.",
 }
 
